@@ -132,6 +132,10 @@ func c11FlagWriters(r *Run, R string) {
 					}
 					return true
 				})
+				// … or the result by which a helper holding the Select reports that the done case was chosen
+				for fo := range c11FlagVars(cinfo, caller.Decl.Body, c11ObservationFlags(r.P)) {
+					selRes[fo] = true
+				}
 				observed := g.GuardedBy(c, func(l Lit) bool {
 					if l.Tag != nil || !l.Truth {
 						return false
